@@ -80,6 +80,7 @@ type Rec struct {
 	LS   []Line
 	AR   [2]Line
 	MS   map[string]Line
+	AP   [2]*Inner // an array of pointers
 }
 
 // Derive is the transformation Rec.Transform applies.
@@ -117,9 +118,22 @@ func (r *Rec) Validate() error {
 // Small is a second collection using struct tags and the default schema.
 type Small struct {
 	sod.Item
-	K int    `sod:"unique"`
-	V string `sod:"index,lower"`
-	W string
+	*Mid        // embedded pointer: D is promoted through two levels
+	K    int    `sod:"unique"`
+	V    string `sod:"index,lower"`
+	W    string
+	C    Code    `sod:"upper"` // a named string type
+	PS   *string `sod:"lower"` // a pointer to a string
+}
+
+// Code is a named string type.
+type Code string
+
+// Deep and Mid: two levels of embedding, the outer one through a pointer.
+type Deep struct{ D int }
+type Mid struct {
+	Deep
+	MN string
 }
 
 // Stamp is a third, tiny collection for times beyond the range of UnixNano
